@@ -49,7 +49,8 @@ def _present(pid):
 class C20(PropertyCheck):
     id = "C20"
     title = "Routines never corrupt caller data or touch memory outside their arrays"
-    lean_modules = ["NipyVerif.Props.C20", "NipyVerif.Props.C20B", "NipyVerif.Props.C20F"]
+    lean_modules = ["NipyVerif.Props.C20", "NipyVerif.Props.C20B", "NipyVerif.Props.C20F",
+                    "NipyVerif.Props.C20Q"]
     driver = "Drivers/C20.lean"
     rule = ("index cases: random shapes/strides/multi-indices (distinct by JSON, non-trivial = ndim >= 2 or a "
             "negative stride); probe cases: routine x size {6,1,0} x layout {C,F,strided,reversed,readonly,bigendian,"
@@ -97,16 +98,22 @@ class C20(PropertyCheck):
         "wrapper_guards_cover proves this list is exactly required \\ validated for the current glue text",
         "memory safety, searched part: that the compiled code computes those expressions is tied by correspondence on "
         "sentinel-padded buffers (write witness: guard words intact; read witness: result independent of the guard "
-        "pattern) and searched with ASan/UBSan builds; the data-dependent partition loops of quantile.c (_pth_element / "
-        "_pth_interval scans), polyaffine.c, the rest of lib/fff (vectors, matrices, BLAS/LAPACK wrappers) and the "
+        "pattern) and searched with ASan/UBSan builds; polyaffine.c, the rest of lib/fff (vectors, matrices, BLAS/LAPACK wrappers) and the "
         "iterators of NumPy are covered by the searched part only",
+        "memory safety, proved part (wave 6, Props/C20Q): the sentinel scans of the partition pass of quantile.c "
+        "(_pth_element / _pth_interval; `while (*bufl < a) i++`, `while (*bufr > a) j--`, no bounds test in the C) are "
+        "modelled as written (Model/C20Q scanUpRaw / scanDownRaw report whether every dereferenced index was inside the "
+        "buffer), their tests and steps are regenerated from the C text (pth_scans_as_written), and under the invariant of "
+        "every reachable pass (PInv of Lemmas/C16H, established by preamble_spec, preserved by partLoop_spec) they read "
+        "only cells of the window [il, jr] and agree with the guarded C16 model (pth_pass_scans_in_window, "
+        "pth_first_pass_scans_in_window); lib/fff/fff_vector.c carries the same loops and is compared, not translated",
         "extension modules built from .pyx cannot be rebuilt in this sandbox: probes through them exercise the "
         "installed binaries (stale w.r.t. edits of .pyx / lib/fff); plain C is rebuilt from /repo by harness/cshim.py "
         "and, for the static helpers of cubic_spline.c, by a shim of harness/props/c20_kernels.py",
     ]
     level_note = ("PARTIAL by nature. Proved (for all inputs): bounds of the index/guard expressions regenerated from the "
                   "C text of mrf.c, joint_histogram.c, cubic_spline.c (sampling path, 1-d filter walks), quantile.c (index "
-                  "selection), fff_array.c (iterator invariant AND the whole scan: every dereferenced offset is an element of the "
+                  "selection; the sentinel scans of every partition pass stay inside the window [il, jr]), fff_array.c (iterator invariant AND the whole scan: every dereferenced offset is an element of the "
                   "array), fffpy.c (negative axis), and from the .pyx text of intvol (padded-mask corners) and _graph.dilation "
                   "(over compact_neighb); frame theorems for ve_step (only the rows of XYZ change) and the joint histogram "
                   "(only row i of H changes); the generic row-major / strided-view / padded-corner arithmetic, the exactness of "
@@ -114,9 +121,7 @@ class C20(PropertyCheck):
                   "integer overflow, Graph's class invariant edges < V. Modelled and compared, no theorem: the contents of "
                   "intvol's offset tables d2/d3/d4 (Python set algebra over simplices; the tie is the recorded-subscript "
                   "correspondence). Searched only, and why: actual loads/stores of the compiled code (sentinel buffers, "
-                  "ASan/UBSan — a statement about the compiler's output, not about the text); the data-dependent partition "
-                  "loops of quantile.c (_pth_element/_pth_interval: in-bounds needs the sentinel invariant x[il] <= a <= x[jr] "
-                  "through the swap protocol and the same_extremities escape, not carried to Lean in this round); polyaffine.c; "
+                  "ASan/UBSan — a statement about the compiler's output, not about the text); polyaffine.c; "
                   "hangs and crashes (isolated child processes); caller-data immutability of every routine (snapshots: a "
                   "quantifier over all public routines, only the verdict is a theorem); .pyx binaries (cannot be rebuilt).")
 
